@@ -934,7 +934,8 @@ func (comp) Extra(prop string, tier string, seed int64, scratch string) *core.Ex
 	// (b) stress, time-bounded (the same bound in the race binary, where fewer histories fit)
 	stressEnd := time.Now().Add(stressFor)
 	for i := 0; time.Now().Before(stressEnd); i++ {
-		cfg := stressCfg{kind: i % 2, max: 1 + (i/2)%3, delay: noTimer, nG: 3 + rng.Intn(6), nOps: 20 + rng.Intn(40),
+		cfg := stressCfg{kind: i % 2, max: []int{1, 2, 3, 8, 50}[(i/2)%5], delay: noTimer, // also batches that stay pending for many operations (values on disk under a pending Remove)
+			nG: 3 + rng.Intn(6), nOps: 20 + rng.Intn(40),
 			nKeys: 2 + rng.Intn(3), plan: (i / 6) % 3, seed: rng.Int63()}
 		if i == 2 || i == 3 || (tier == "thorough" && i%40 >= 38) {
 			// the timer takes part: BatchDelaySeconds = 1, a batch too large to fill, the history lasts 1.4 s
